@@ -294,11 +294,17 @@ func randAlnum(rng *rand.Rand, n int) string {
 func (m *model) unknownToken(rng *rand.Rand) (tok, desc string) {
 	for tries := 0; tries < 8; tries++ {
 		base, _, have := m.pick(rng, true)
-		k := rng.Intn(7)
+		k := rng.Intn(10)
 		if !have && k >= 1 && k <= 3 {
 			k = 0
 		}
 		switch k {
+		case 7:
+			tok, desc = rig.AdminToken+randAlnum(rng, 1+rng.Intn(3)), "admin-plus-suffix"
+		case 8:
+			tok, desc = rig.AdminToken[:len(rig.AdminToken)-1], "admin-minus-last-char"
+		case 9:
+			tok, desc = randAlnum(rng, 1)+rig.AdminToken, "prefix-plus-admin"
 		case 0:
 			tok, desc = randAlnum(rng, 32), "random32"
 		case 1:
@@ -334,17 +340,17 @@ func (m *model) unknownToken(rng *rand.Rand) (tok, desc string) {
 // one sequence
 
 type seq struct {
-	e      *env
-	r      *ev.Run
-	caseID string
-	m      *model
-	log    []string
-	last   string // kind of the last operation
-	subj   string // token the last operation targeted ("" if none)
-	sinceR bool   // a restart happened since the last revoke/create (for signatures)
-	failed bool
-	rot    int
-	nops   map[string]int
+	e       *env
+	r       *ev.Run
+	caseID  string
+	m       *model
+	log     []string
+	last    string // kind of the last operation
+	subj    string // token the last operation targeted ("" if none)
+	sinceR  bool   // a restart happened since the last revoke/create (for signatures)
+	failed  bool
+	rot     int
+	nops    map[string]int
 	lockSeq bool // this sequence contains one revoke under a reader's lock
 }
 
